@@ -60,6 +60,7 @@ class LoopSummary:
         self.why = None
         self.updates = {}     # label -> dict(loc, pre, next, final, kind, detail)
         self.effects = []
+        self.exits = []       # (kind, path condition, value) of every way through the body
         self.elem = None      # for range-for: (vector lvalue, by_ref)
 
     def __repr__(self):
@@ -802,6 +803,7 @@ class SymEx:
         comps = self.exec_block([body], 0, s2)
         ls.effects = self.effects[neff:]
         del self.effects[neff:]
+        ls.exits = [(c.kind, tuple(c.state.pc), c.val) for c in comps]
         irregular = [c for c in comps if c.kind not in ('fall', 'cont')]
         if irregular:
             ls.regular = False
